@@ -1337,3 +1337,88 @@ Theorem responder_requires_clean asgi indep cs st q a :
   forall s b, In (ECall s b) (fst (run_request indep st q)) ->
               not_req_site s = false \/ (exists k, s = SRsrc k) -> b = Return.
 Proof. intro H. rewrite (order_spec _ _ _ _ q H). apply spec_responder_requires_clean. Qed.
+
+(* ------------------------------------------------------------------ stacks built in several steps *)
+
+Definition flatten (bs : list batch) : list comp := concat (map batch_list bs).
+
+Lemma flatten_snoc bs b : flatten (bs ++ [b]) = flatten bs ++ batch_list b.
+Proof. unfold flatten. rewrite map_app, concat_app. simpl. rewrite app_nil_r. reflexivity. Qed.
+
+Lemma add_middleware_unprepared asgi indep a b :
+  a_unprepared (fst (add_middleware asgi indep a b)) = a_unprepared a ++ batch_list b.
+Proof. unfold add_middleware. destruct (prepare asgi indep _); reflexivity. Qed.
+
+Lemma add_middleware_ok asgi indep a b a' :
+  add_middleware asgi indep a b = (a', true) ->
+  a_stacks a' = prepare asgi indep (a_unprepared a ++ batch_list b).
+Proof.
+  unfold add_middleware. destruct (prepare asgi indep _) eqn:E; intro H; [|discriminate].
+  injection H as <-. simpl. reflexivity.
+Qed.
+
+Lemma add_all_snoc asgi indep : forall bs a b,
+  add_all asgi indep a (bs ++ [b]) =
+  let '(a1, oks) := add_all asgi indep a bs in
+  let '(a2, ok) := add_middleware asgi indep a1 b in (a2, oks ++ [ok]).
+Proof.
+  induction bs as [|b0 tl IH]; intros a b; simpl.
+  - destruct (add_middleware asgi indep a b). reflexivity.
+  - destruct (add_middleware asgi indep a b0) as [a1 ok0]. rewrite IH.
+    destruct (add_all asgi indep a1 tl) as [a2 oks].
+    destruct (add_middleware asgi indep a2 b). reflexivity.
+Qed.
+
+(* every call extends the accumulated list, whether or not it raised *)
+Theorem add_all_unprepared asgi indep : forall bs a,
+  a_unprepared (fst (add_all asgi indep a bs)) = a_unprepared a ++ flatten bs.
+Proof.
+  induction bs as [|b tl IH] using rev_ind; intro a.
+  - simpl. unfold flatten. simpl. rewrite app_nil_r. reflexivity.
+  - rewrite add_all_snoc, flatten_snoc, app_assoc, <- IH.
+    destruct (add_all asgi indep a tl) as [a1 oks]. simpl.
+    pose proof (add_middleware_unprepared asgi indep a1 b) as H.
+    destruct (add_middleware asgi indep a1 b). exact H.
+Qed.
+
+(* whatever the split into constructor argument and add_middleware calls: if the last call
+   returned normally, the prepared stacks are those of the whole concatenated list *)
+Theorem add_all_stacks asgi indep a bs b a' :
+  add_middleware asgi indep (fst (add_all asgi indep a bs)) b = (a', true) ->
+  fst (add_all asgi indep a (bs ++ [b])) = a' /\
+  a_stacks a' = prepare asgi indep (a_unprepared a ++ flatten (bs ++ [b])).
+Proof.
+  intro H. rewrite add_all_snoc. pose proof (add_all_unprepared asgi indep bs a) as U.
+  destruct (add_all asgi indep a bs) as [a1 oks]. simpl in *. rewrite H. simpl.
+  split; [reflexivity|]. rewrite (add_middleware_ok _ _ _ _ _ H), U, flatten_snoc, app_assoc.
+  reflexivity.
+Qed.
+
+Theorem new_app_stacks asgi indep b a :
+  new_app asgi indep b = Some a ->
+  a_unprepared a = batch_list b /\ a_stacks a = prepare asgi indep (batch_list b).
+Proof.
+  unfold new_app, add_middleware. simpl.
+  destruct (prepare asgi indep (batch_list b)) as [st|] eqn:Hp; [|discriminate].
+  intro H. injection H as <-. simpl. auto.
+Qed.
+
+(* so the documented discipline applies to the concatenation, for every batch split *)
+Theorem order_spec_batches asgi indep b0 bs b a0 a' q st :
+  new_app asgi indep b0 = Some a0 ->
+  add_middleware asgi indep (fst (add_all asgi indep a0 bs)) b = (a', true) ->
+  a_stacks a' = Some st ->
+  run_request indep st q = spec_trace indep (flatten (b0 :: bs ++ [b])) q.
+Proof.
+  intros Hn Ha Hs. apply new_app_stacks in Hn. destruct Hn as [Hu _].
+  apply (order_spec asgi). apply add_all_stacks in Ha. destruct Ha as [_ Ha].
+  rewrite Hs, Hu in Ha. unfold flatten in *. simpl. congruence.
+Qed.
+
+Theorem order_spec_constructor asgi indep b0 a0 q st :
+  new_app asgi indep b0 = Some a0 -> a_stacks a0 = Some st ->
+  run_request indep st q = spec_trace indep (batch_list b0) q.
+Proof.
+  intros Hn Hs. apply new_app_stacks in Hn. destruct Hn as [_ Hp].
+  apply (order_spec asgi). congruence.
+Qed.
